@@ -1,14 +1,14 @@
 """C03 — optimize() never changes what a model computes (kernel obligations; large assumed part)."""
 import re
 
-MODULES = ["contracts.c03_folding", "contracts.c04_process"]
+MODULES = ["contracts.c03_folding", "contracts.c04_process", "contracts.c05_rules"]
 
 
 def INCLUDE(name):
     m = re.match(r"(C\d\d)\.", name)
-    return m is not None and m.group(1) in ("C03", "C09")
+    return m is not None and m.group(1) in ("C03", "C09", "C05")
 
 
 def replay(ob):
-    from props import C09
-    return C09.replay(ob)
+    from props import C05, C09
+    return C09.replay(ob) or C05.replay(ob)
